@@ -2958,8 +2958,12 @@ class ChannelManager:
             raise
 
         # Remember the channel by source CID and destination CID
-        le_connection_channels = self.le_coc_channels.setdefault(connection.handle, {})
-        le_connection_channels[channel.destination_cid] = channel
+        # (unless it has already been closed by the time we get to run again)
+        if channel.state == LeCreditBasedChannel.State.CONNECTED:
+            le_connection_channels = self.le_coc_channels.setdefault(
+                connection.handle, {}
+            )
+            le_connection_channels[channel.destination_cid] = channel
 
         return channel
 
@@ -3067,9 +3071,11 @@ class ChannelManager:
             raise
 
         # Remember the channel by source CID and destination CID
-        le_connection_channels = self.le_coc_channels.setdefault(connection.handle, {})
         for channel in channels:
-            le_connection_channels[channel.destination_cid] = channel
+            if channel.state == LeCreditBasedChannel.State.CONNECTED:
+                self.le_coc_channels.setdefault(connection.handle, {})[
+                    channel.destination_cid
+                ] = channel
 
         return channels
 
